@@ -374,6 +374,10 @@ pub fn run(ctx: &mut Ctx) {
             ("neither", pe.remove_assertion(only.clone()).add_assertion("unrelated", 1)),
             ("neither-bare", pe.remove_assertion(only.clone())),
             ("second-of-same", pe.add_assertion(if variant <= 1 { known_values::RESULT } else { known_values::ERROR }, "second")),
+            // ... the extra part given in decorated form (salted, annotated)
+            ("both-one-salted", pe.add_assertion_salted(if variant <= 1 { known_values::ERROR } else { known_values::RESULT }, "x", true)),
+            ("both-one-annotated", pe.add_assertion_envelope(Envelope::new_assertion(if variant <= 1 { known_values::ERROR } else { known_values::RESULT }, "x").add_assertion(known_values::NOTE, "n")).unwrap()),
+            ("second-of-same-salted", pe.add_assertion_salted(if variant <= 1 { known_values::RESULT } else { known_values::ERROR }, "second", true)),
             ("subject-retagged-request", pe.replace_subject(Envelope::new(dcbor::CBOR::to_tagged_value(40004u64, id)))),
             ("subject-untagged", pe.replace_subject(Envelope::new(id))),
             ("subject-not-arid", pe.replace_subject(Envelope::new(dcbor::CBOR::to_tagged_value(40005u64, 12345)))),
